@@ -34,4 +34,46 @@ CLAIMS = {
         "note": _STD_NOTE + " Single-reduction (Evaluation) hits are exempt by argument: they return the unevaluated result, re-evaluated under the caller's context.",
         "technique": "static analysis: CFG path enumeration between def and use of a query variable, key-shape agreement, call-site argument rules",
     },
+    "C33": {
+        "text": "Exhaustive truth table: Job.calc_status (decision list) against CallGraphQuery._job_status_term (SQL formulas, three-valued logic for the "
+        "outer-joined Value.type) over every abstract job row consistent with the structurally checked row invariants, for jobs and for executions.",
+        "note": _STD_NOTE + " The abstract domain (ended, call_hash, cached, result type in {NULL, Error, other}) is exhaustive for the formulas' atoms; SQLAlchemy operator semantics are a frozen table.",
+        "technique": "static analysis: decision-table extraction from if/elif chains and SQLAlchemy expressions + finite enumeration",
+    },
+    "C34": {
+        "text": "Totality of format_tag_value by a may-raise summary over resolved callees minus enclosing try/except; unquoted display only behind the "
+        "re-parses-as-str test (dominance); parser branch structure.",
+        "note": _STD_NOTE + " Undecided: the value round trip itself.",
+        "technique": "static analysis: exception-escape (may-raise) summaries, CFG dominance facts",
+    },
+    "C35": {
+        "text": "Interpolation discipline of get_config_dict (values leave an interpolating parser raw or re-escaped), separator agreement split/join, "
+        "guards of the config-dir substitution, and both subrun ends using the dict form.",
+        "note": _STD_NOTE + " configparser semantics ($ is the interpolation character, $$ its escape) is a frozen fact. Undecided: equality of effective values.",
+        "technique": "static analysis: dataflow of exported values through escape/raw reads, structural agreement of writer/reader",
+    },
+    "C18": {
+        "text": "For every concrete Expression class: each identity field (constructor-assigned, minus declared bookkeeping) flows into every returned hash "
+        "pre-image or is provably empty there; own-class tag; pickle state keys agree and bookkeeping is reset.",
+        "note": _STD_NOTE + " Undecided: hash inequality of different pre-images (C14) and pickle byte determinism of option dicts.",
+        "technique": "static analysis: per-return def-use flow over the resolved _calc_hash, class-hierarchy method resolution, writer/reader key agreement",
+    },
+    "C15": {
+        "text": "Exhaustive tag table over all hash pre-image sites (constant tags resolved through class constants and inheritance, no sharing between "
+        "record kinds); every argument reaches the key unless the declared filter removes it; kind-aware positional binding; defaults merged under kwargs.",
+        "note": _STD_NOTE + " Undecided: hash inequality; injectivity of the encoding is C14.",
+        "technique": "static analysis: repo-wide call-site enumeration, class-constant resolution, flow and idiom rules on binding sites",
+    },
+    "C17": {
+        "text": "Transitive read-set of Task._calc_hash (required/forbidden fields), clone completeness of options()/export_options(), write discipline on hashed "
+        "fields (must-pass recompute_hash), wrapper/partial composition, and constant evaluation of the decorator-trimming regex on def/async def headers.",
+        "note": _STD_NOTE + " Known finding recorded: TaskRegistry.rename does not rehash (a pinned hash in the suite forbids the repair). Undecided: source-text extraction by inspect.",
+        "technique": "static analysis: field read-sets through properties, constructor-call keyword rules, CFG must-pass, regex-literal evaluation",
+    },
+    "C37": {
+        "text": "Paired update of the registry's name table and hash-count table on every path of every method, closed ownership of both tables, no hash change "
+        "of a counted task outside the decrement/re-add bracket, and hide-then-create order in wraps_task.",
+        "note": _STD_NOTE + " The registry counts task.hash (the attribute); whether that attribute reflects the current identity is C17.3.",
+        "technique": "static analysis: CFG must-pass pairing, who-may-write by receiver class, statement order",
+    },
 }
